@@ -17,6 +17,9 @@
      (text <pc 0|1> <p> <hex|-> ...)   text_multi: the content rows of read_text over the files (bytes as hex, - = empty)
           under p partitions, in partition order  -> x<hex> x<hex> .. | N N ..   (N: content not projected)
      (textgrow <hex|-> ...)            the grow-only buffer variant (refuted), one queue
+     (globpull <p> <cap> <n>)   glob_multi: the path indices the glob() table function emits for n expanded paths under
+          p partitions when every poll has output capacity cap (n + 1 polls per partition)  -> i i i ..
+     (globnorev <cap> <n>)      the variant without .rev() (refuted), one partition
      (deal <p> <n>)   -> deal p k [0..n-1] for k = 0..p-1, then deal_mod:   0,4|1,5|2|3 ; 0,4|1,5|2|3 *)
 
 let atom = function A s -> s | L _ -> failwith "atom expected"
@@ -119,6 +122,15 @@ let run_line (line : string) =
   | L (A "textgrow" :: files) ->
     let fs = List.map (fun x -> let h = atom x in if h = "-" then [] else bytes_of_hex h) files in
     print_endline (String.concat " " (List.map (function None -> "N" | Some b -> "x" ^ hex_of_bytes b) (text_reader_grow [] fs)))
+  | L [A "globpull"; A p; A cap; A n] ->
+    let n = int_of_string n and cap = nat_of_int (int_of_string cap) in
+    let caps _ = List.init (n + 1) (fun _ -> cap) in
+    let out = glob_multi caps (nat_of_int (int_of_string p)) (List.init n (fun i -> i)) in
+    print_endline (String.concat " " (List.map string_of_int out))
+  | L [A "globnorev"; A cap; A n] ->
+    let n = int_of_string n and cap = nat_of_int (int_of_string cap) in
+    print_endline (String.concat " " (List.map string_of_int
+      (glob_pull_norev (List.init (n + 1) (fun _ -> cap)) (List.init n (fun i -> i)))))
   | L [A "deal"; A p; A n] ->
     let p = int_of_string p and n = int_of_string n in
     let l = List.init n (fun i -> i) in
